@@ -74,6 +74,16 @@ def mk_values(it, prog):
     vals['cont while_cond'] = cont('vmc_while_cond', cond=cont('vmc_quit_exc'), body=cont('vmc_quit', exit_code=K(3)), after=cont('vmc_quit_exc'))
     vals['cont while_body'] = cont('vmc_while_body', cond=cont('vmc_quit_exc'), body=cont('vmc_quit', exit_code=K(4)), after=cont('vmc_quit_exc'))
     vals['cont pushint'] = cont('vmc_pushint', value=K(-(1 << 31)), next=cont('vmc_quit', exit_code=K(5)))
+    # vmc_std / vmc_envelope carry control data: nargs:(Maybe uint13), stack, save list, cp:(Maybe int16) - `just 0` is not `nothing`
+    VCD = prog.cls('VmControlData')
+
+    def cdata(nargs, cp):
+        return it.construct(VCD, [K('vm_ctl_data')], dict(nargs=K(nargs), stack=K(None), save=K(None), cp=K(cp)))
+    code = cm.call_method(it, cm.new_cell(it, cm.tvm_bits(it, BA([Seg(16, 'k', '1111000011110000')])), []), 'begin_parse')
+    vals['cont std (nargs 5, cp -1)'] = cont('vmc_std', cdata=cdata(5, -1), code=code)
+    vals['cont std (no nargs, no cp)'] = cont('vmc_std', cdata=cdata(None, None), code=code)
+    vals['cont std (nargs 0, cp 0)'] = cont('vmc_std', cdata=cdata(0, 0), code=code)
+    vals['cont envelope'] = cont('vmc_envelope', cdata=cdata(8191, 32767), next=cont('vmc_quit', exit_code=K(6)))
     return vals
 
 
@@ -85,8 +95,9 @@ def vkey(it, v):
         n = v.cls.name
         if n == 'VmTuple':
             return ('tuple', tuple(vkey(it, x) for x in v.attrs['list'].items))
-        if n == 'VmCont':
-            return ('cont', tuple(sorted((k, vkey(it, x)) for k, x in v.attrs.items())))
+        if n in ('VmCont', 'VmControlData'):
+            # an absent optional attribute and an attribute holding None are the same value
+            return (n, tuple(sorted((k, vkey(it, x)) for k, x in v.attrs.items() if not (isinstance(x, K) and x.v is None))))
         if n in ('Cell', 'Slice', 'Builder'):
             return (n.lower(), bocrun.ckey(it, v))
     return ('?', repr(v))
